@@ -68,11 +68,22 @@ def run(ctx):
         for k in range(reps):
             both = T and (early or race) and k == 0
             for dgram in ((False, True) if both else ((i + k) % 2 == 1,)):
-                scripts.append(pc.script_of(b, "b%d.%d.%s" % (i, k, "udp" if dgram else "tcp"), maxcq=BIG, dgram=dgram,
+                # stream framing, every other repetition: the EOF / error comes in the SAME Read as the reply's last byte
+                ewd = race and not dgram and (k % 4 < 2)
+                scripts.append(pc.script_of(b, "b%d.%d.%s%s" % (i, k, "udp" if dgram else "tcp", ".eofdata" if ewd else ""),
+                                            maxcq=BIG, dgram=dgram,
                                             idpolicy=rng.choice(["random", "zero", "ffff", "same"]),
-                                            kinds=[kinds[(i + k) % 3]], pause=(k % 3 == 1),
-                                            grace_ms=600 if dgram else 1500))
+                                            kinds=[kinds[(i + k) % (2 if ewd else 3)]], pause=(k % 3 == 1),
+                                            grace_ms=600 if dgram else 1500, eof_with_data=ewd))
                 meta.append({"beh": i, "early": early, "race": race})
+    # the id counter beyond its 16-bit range: > 65536 unrecorded helper exchanges first (the wire id is the counter
+    # mod 2^16), then replies that arrive early / in time / right before a close
+    pick = [b for b in behs if pc.early_delivery(b["steps"]) or pc.reply_then_fault(b["steps"])]
+    for k in range(8 if T else 2):
+        b = pick[rng.randrange(len(pick))]
+        scripts.append(pc.script_of(b, "past16bit.%d" % k, maxcq=BIG, dgram=(k % 2 == 1), qid0=65536 + rng.randrange(1, 6),
+                                    idpolicy="random", kinds=["eof"], grace_ms=600 if k % 2 == 1 else 1500))
+        meta.append({"beh": None, "early": False, "race": False})
     # UDP retransmission (real 1 s ticker): no reply until the query has been written a second time; the reply
     # to the resend (copy 0 of the same send) must then be returned; a duplicate follows
     for k in range(3 if T else 1):
